@@ -106,7 +106,7 @@ func (w *workerQ) pick() string {
 				return "unexpected-point-" + a.Name
 			}
 			a.Release()
-		case <-time.After(10 * time.Second):
+		case <-time.After(3 * time.Second):
 			return "timeout-loop"
 		}
 	}
@@ -117,7 +117,7 @@ func (w *workerQ) pick() string {
 		case id := <-w.picked:
 			w.cur = id
 			return id
-		case <-time.After(10 * time.Second):
+		case <-time.After(3 * time.Second):
 			return "timeout-handler"
 		}
 	}
@@ -140,7 +140,7 @@ func (w *workerQ) answer(res queue.TaskResult) string {
 		case <-w.applied:
 			w.cur = "nil"
 			return "-"
-		case <-time.After(10 * time.Second):
+		case <-time.After(3 * time.Second):
 			return "timeout-apply"
 		}
 	}
